@@ -97,7 +97,9 @@ Theorem C06_push_clone_panics :
          vlen v < vcap v \/ grow_ok c v (vcap v + 1) ->
          exists (v' : vec) (u' : uw),
            push_unchecked c (VClone bs k) (v, u) = Panic PUser (v', u') /\
-           Rep c v' xs /\ unext u' = unext u /\ ufuse u' = None /\ uevents u' = uevents u.
+           Rep c v' xs /\
+           unext u' = unext u /\
+           ufuse u' = None /\ uevents u' = uevents u /\ vbk v' = vbk v /\ (vlen v < vcap v -> vcap v' = vcap v).
 Proof. exact push_clone_panics. Qed.
 
 (** defect D9 (repaired): the shifted tail is hidden while the clone runs *)
@@ -111,7 +113,9 @@ Theorem C06_insert_clone_panics :
          vlen v < vcap v \/ grow_ok c v (vcap v + 1) ->
          exists (v' : vec) (u' : uw),
            insert_unchecked c (N.of_nat i) (VClone bs k) (v, u) = Panic PUser (v', u') /\
-           Rep c v' (firstn i xs) /\ unext u' = unext u /\ ufuse u' = None /\ uevents u' = uevents u.
+           Rep c v' (firstn i xs) /\
+           unext u' = unext u /\
+           ufuse u' = None /\ uevents u' = uevents u /\ vbk v' = vbk v /\ (vlen v < vcap v -> vcap v' = vcap v).
 Proof. exact insert_clone_panics. Qed.
 
 Theorem C06_clone_vec_panics :
